@@ -211,7 +211,7 @@ func init() {
 			return genSeqCase(r, seqProfile{prop: "C13", steps: [2]int{20, 60}, keys: [2]int{2, 3}, maxTx: 5, txWeight: 65, ctlWeight: 4, late: true, reopen: rp, readback: "all"})
 		}})
 	Register(propC14{seqProp{id: "C14",
-		rule: "three quarters of the cases: fault-free sequential histories of autocommit and transactional writes, deletes, commits, failed commits and rollbacks (15-60 steps, contents up to 200 KiB), optional reopen with jobs still queued; in every fifth history a Begin naming an isolation level that does not exist (accepted and rolled back, or refused); one case in a hundred: a transaction leaving 1000-2600 contents behind at once; one in a hundred: a backlog of 1100-8200 versions becoming collectable between two collector passes (optionally held back by an old snapshot transaction until the end); then all transactions are ended, the world runs to exact quiescence, one collection pass, quiescence; one quarter: small concurrent programs (the generators of C06 and C07) under seeded schedules, then the same end game; oracle: the regular files under all roots are in bijection with the keys GetKeys returns and byte-equal to their contents; non-trivial = some key written at least twice (sequential) / client operations overlapped (concurrent)",
+		rule: "three quarters of the cases: fault-free sequential histories of autocommit and transactional writes, deletes, commits, failed commits and rollbacks (15-60 steps, contents up to 200 KiB), optional reopen with jobs still queued; in every tenth history one key of 65 536-100 000 bytes; in every fifth history a Begin naming an isolation level that does not exist (accepted and rolled back, or refused); one case in a hundred: a transaction leaving 1000-2600 contents behind at once; one in a hundred: a backlog of 1100-8200 versions becoming collectable between two collector passes (optionally held back by an old snapshot transaction until the end); then all transactions are ended, the world runs to exact quiescence, one collection pass, quiescence; one quarter: small concurrent programs (the generators of C06 and C07) under seeded schedules, then the same end game; oracle: the regular files under all roots are in bijection with the keys GetKeys returns and byte-equal to their contents; non-trivial = some key written at least twice (sequential) / client operations overlapped (concurrent)",
 		runs: [2]int{10000, 160000},
 		gen: func(r *simrt.Rand, idx int, tier string) SeqCase {
 			rp := 0
@@ -296,6 +296,33 @@ func init() {
 				}
 			}
 			c.World.MaxDirCount = []uint64{0, 1, 50, 99, 100, 100, 101, 150}[r.Intn(8)]
+			if idx%10 == 7 {
+				// the operator lowers the directory limit: a history under a limit of 250-400 fills a
+				// directory well beyond 100, then the database is reopened with the limit at its clamp and
+				// written on - the directory may keep what it holds, it must not grow
+				c.World.MaxDirCount = uint64(250 + r.Intn(150))
+				c.World.Roots = c.World.Roots[:1]
+				id := uint64(800000)
+				for k := 0; k < 130+r.Intn(100); k++ {
+					id++
+					c.Ops = append(c.Ops, Op{K: "set", Key: fmt.Sprintf("fill-%04d", k), ID: id, Size: 1 + r.Intn(16)})
+				}
+				c.Ops = append(c.Ops, Op{K: "drain"}, Op{K: "reopen", Size: 100})
+				for k := 0; k < 40+r.Intn(60); k++ {
+					id++
+					c.Ops = append(c.Ops, Op{K: "set", Key: fmt.Sprintf("more-%04d", k), ID: id, Size: 1 + r.Intn(16)})
+				}
+				for i := range c.Ops {
+					if c.Ops[i].Size > 0 && c.Ops[i].K != "reopen" {
+						c.Ops[i].Size = 1 + c.Ops[i].Size%16
+						if c.Ops[i].K == "create" {
+							c.Ops[i].Writes = []int{c.Ops[i].Size}
+						}
+					}
+				}
+				c.World.RootStyle = 0
+				return c
+			}
 			if idx%10 == 3 {
 				// a limit well above the clamp, and enough writes in a row (nothing deleted in between)
 				// for one directory to reach it
@@ -559,6 +586,16 @@ func (p propC14) Gen(r *simrt.Rand, idx int, tier string) any {
 		return C14Case{Seq: &c}
 	}
 	c := p.seqProp.gen(r, idx, tier)
+	if idx%10 == 6 {
+		// one of the keys is longer than anybody planned for (the inline client takes any string)
+		long := strings.Repeat("L", []int{65536, 70000, 100000}[r.Intn(3)])
+		c.Keys = append(c.Keys, long)
+		for i := range c.Ops {
+			if c.Ops[i].Key != "" && c.Ops[i].Key != "never-written" && r.Intn(4) == 0 {
+				c.Ops[i].Key = long
+			}
+		}
+	}
 	if idx%5 == 2 && len(c.Ops) > 4 {
 		// somewhere in the first half a Begin names an isolation level that does not exist; accepted
 		// (and rolled back at once) or refused, it must not keep anything from being reclaimed later
@@ -668,6 +705,15 @@ func (s *seqRun) walkShape(i int, o Op) {
 		cand = 2
 	}
 	for d, n := range dirs {
+		if n > limit && s.grandfathered[d] > 0 {
+			// the limit was lowered at a reopen while this directory already held more: it may keep
+			// what it has, it must not grow
+			if n > s.grandfathered[d] {
+				s.fail("dir-over-limit", "grew-above-a-lowered-limit", fmt.Sprintf("after step %d (%s): directory %s held %d entries when the limit was lowered to %d and now holds %d", i, o, d, s.grandfathered[d], limit, n))
+				return
+			}
+			continue
+		}
 		if n > limit {
 			s.fail("dir-over-limit", "count", fmt.Sprintf("after step %d (%s): directory %s holds %d entries, the limit is %d", i, o, d, n, limit))
 			return
